@@ -622,11 +622,21 @@ func ParseSpecLines(sf *SpecFile, file string, lines []string, trusted bool) err
 				}
 				anchor := fields[1]
 				sub, ltags := parseTags(fields[2])
-				if sub != "lemma" && sub != "assume" {
-					return errf("at <anchor> lemma|assume <expr>")
+				if sub != "lemma" && sub != "assume" && sub != "ghostset" {
+					return errf("at <anchor> lemma|assume|ghostset ...")
 				}
 				body := strings.TrimSpace(rest[strings.Index(rest, fields[2])+len(fields[2]):])
-				e, err := ParseSpecExpr(body)
+				var e SExpr
+				var err error
+				if sub == "ghostset" {
+					// at <anchor> ghostset g(x) = expr: a ghost assignment executed at that point
+					if !strings.Contains(body, "=") {
+						return errf("at <anchor> ghostset g(x) = <expr>")
+					}
+					e, err = ParseSpecExpr("true")
+				} else {
+					e, err = ParseSpecExpr(body)
+				}
 				if err != nil {
 					return errf("%v", err)
 				}
